@@ -1,2 +1,14 @@
 import MJ.Props.C10
-#print axioms MJ.C10.placeholder
+#print axioms MJ.C10.lex_eq_spec
+#print axioms MJ.C10.lex_eq_spec_of_leftmostLongest
+#print axioms MJ.C10.memchr_is_leftmostLongest
+#print axioms MJ.C10.findStart_eq_findLL
+#print axioms MJ.C10.verbatim
+#print axioms MJ.C10.lead_rule
+#print axioms MJ.C10.tail_rule
+#print axioms MJ.C10.round_rule
+#print axioms MJ.C10.raw_rule
+#print axioms MJ.C10.raw_verbatim
+#print axioms MJ.C10.delim_invariance
+#print axioms MJ.C10.delim_invariance_param
+#print axioms MJ.C10.lookalike_is_text
